@@ -158,4 +158,55 @@ theorem constants_spec :
 theorem constants_judged :
     Dec.Gen.Api3.constants.map (fun p => (p.1, Dec.C06GenFromInt.bitsOf p.2)) = Dec.constTable := by decide +kernel
 
+/-! ## 7. One statement for the 35 operations of `run3` -/
+
+/-- argument shapes of the glue operations -/
+inductive Shape | dd | d | i | none | ds
+  deriving DecidableEq, Repr
+
+/-- an argument list of the given shape: two decimals / one decimal / one integer / nothing / any number of decimals -/
+def WellTyped : Shape → List AVal → Prop
+  | .dd, args => ∃ x y : U128, args = [.d x, .d y]
+  | .d, args => ∃ x : U128, args = [.d x]
+  | .i, args => ∃ n : Int, args = [.i n]
+  | .none, args => args = []
+  | .ds, args => ∃ xs : List U128, args = xs.map AVal.d
+
+/-- the 35 operations of `run3` with their shapes -/
+def glueOps : List (String × Shape) := [
+  ("op_add", .dd), ("op_add_ref", .dd), ("op_add_assign", .dd), ("op_add_assign_ref", .dd),
+  ("op_sub", .dd), ("op_sub_ref", .dd), ("op_sub_assign", .dd), ("op_sub_assign_ref", .dd),
+  ("op_mul", .dd), ("op_mul_ref", .dd), ("op_mul_assign", .dd), ("op_mul_assign_ref", .dd),
+  ("op_div", .dd), ("op_div_ref", .dd), ("op_div_assign", .dd), ("op_div_assign_ref", .dd),
+  ("op_rem", .dd), ("op_rem_ref", .dd), ("op_rem_assign", .dd), ("op_rem_assign_ref", .dd),
+  ("op_neg", .d), ("op_neg_ref", .d),
+  ("from_i32", .i), ("from_u32", .i), ("from_i64", .i), ("from_u64", .i), ("from_u128", .i), ("default", .none),
+  ("copy", .d), ("copy_sign", .dd), ("is_canonical", .d),
+  ("sum", .ds), ("sum_ref", .ds), ("product", .ds), ("product_ref", .ds)]
+
+/-- `glueOps` names exactly the operations of the regenerated dispatch that `run3` serves (the remaining eight of
+`Api3.covered` are the text and formatter operations of `run3s` / `run3f`) -/
+theorem glueOps_covered : glueOps.map (·.1) = (Dec.Gen.Api3.covered.map (·.1)).take 35 := by decide +kernel
+
+/-- **C15 for the glue, one statement**: every operation of `run3`, on every argument list of its shape (all bit patterns,
+every `Int`, folds of any length), returns normally -/
+theorem glue_total : ∀ p ∈ glueOps, ∀ args, WellTyped p.2 args → ∃ r, run3 p.1 args = some (.ok r) := by
+  intro p hp args hw
+  simp only [glueOps, List.mem_cons, List.mem_nil_iff, or_false] at hp
+  rcases hp with rfl | rfl | rfl | rfl | rfl | rfl | rfl | rfl | rfl | rfl | rfl | rfl | rfl | rfl | rfl | rfl | rfl | rfl | rfl | rfl |
+    rfl | rfl | rfl | rfl | rfl | rfl | rfl | rfl | rfl | rfl | rfl | rfl | rfl | rfl | rfl
+  all_goals first
+    | (obtain ⟨x, y, rfl⟩ := hw; first
+        | exact total_op_add x y | exact total_op_add_ref x y | exact total_op_add_assign x y | exact total_op_add_assign_ref x y
+        | exact total_op_sub x y | exact total_op_sub_ref x y | exact total_op_sub_assign x y | exact total_op_sub_assign_ref x y
+        | exact total_op_mul x y | exact total_op_mul_ref x y | exact total_op_mul_assign x y | exact total_op_mul_assign_ref x y
+        | exact total_op_div x y | exact total_op_div_ref x y | exact total_op_div_assign x y | exact total_op_div_assign_ref x y
+        | exact total_op_rem x y | exact total_op_rem_ref x y | exact total_op_rem_assign x y | exact total_op_rem_assign_ref x y
+        | exact total_copy_sign x y)
+    | (obtain ⟨x, rfl⟩ := hw; first
+        | exact total_op_neg x | exact total_op_neg_ref x | exact total_copy x | exact total_is_canonical x
+        | exact total_from_i32 x | exact total_from_u32 x | exact total_from_i64 x | exact total_from_u64 x | exact total_from_u128 x
+        | exact ⟨_, sum_spec x⟩ | exact ⟨_, sum_ref_spec x⟩ | exact ⟨_, product_spec x⟩ | exact ⟨_, product_ref_spec x⟩)
+    | (cases hw; exact total_default)
+
 end Dec.C15GenGlue
